@@ -117,7 +117,7 @@ def run(out, tier):
     rng = random.Random(common.seed())
     wd = common.workdir("c19")
     try:
-        npico = 120 if tier == "quick" else 2500
+        npico = 120 if tier == "quick" else 800
         picos = []
         for focus in ("paint", "struct"):
             docs, gens = D.generate_docs(focus, npico, common.seed(), wd, max_nodes=6)
